@@ -1,4 +1,56 @@
-(* placeholder *)
-From GR Require Import Base.
-Theorem C09_placeholder : True. Proof. exact I. Qed.
-Print Assumptions C09_placeholder.
+(* C09 — the TLS client-certificate gate holds and failed handshakes are contained (the part that is logic).
+   Property theorems only.  X.509 path validation and the TLS handshake are crypto/tls's: in the model the outcome of
+   the handshake is an input (the verified chain of common names, leaf first, or a failure); the complete finite space
+   of configurations x credentials x handshake faults is enumerated against the real crypto/tls by the harness. *)
+From Coq Require Import String List.
+Import ListNotations.
+From GR Require Import Base Resp Handler Exec Conn ConnFacts LoopFacts Lifecycle LifecycleFacts LifecycleThms.
+
+Section C09.
+  Variable hstate : Type.
+  Variable handle : hstate -> Z -> hcall -> hstate * hresult.
+  Variable regexp_src : bytes -> bytes.
+  Variable fw_text : bytes -> args -> bytes.
+
+  (* (1) the gate: with a common-name rule configured, a TLS connection whose verified chain does not carry that name on
+     its LEAF is closed before a single request is read: the whole trace is [close] — no registration, no handler call,
+     no reply — whatever the client sends and whatever names the other certificates of the chain carry *)
+  Theorem C09_rejected_runs_nothing : forall ss hs chain input,
+    admitted ss (Some chain) = false ->
+    trace hstate (serve hstate handle regexp_src fw_text ss hs (Some chain) input) = [EvClose].
+  Proof. exact (serve_rejected hstate handle regexp_src fw_text). Qed.
+
+  (* ... and admission looks at the leaf only: *)
+  Theorem C09_leaf_only : forall cn leaf rest cfg app, cn <> [] ->
+    admitted {| ss_config := cfg; ss_auths := [ACert cn]; ss_app := app |} (Some (leaf :: rest)) = bytes_eqb leaf cn.
+  Proof.
+    intros cn leaf rest cfg app Hcn. unfold admitted, authenticate, initial_cstate. cbn [ss_auths forallb authr_ok cs_tls].
+    destruct cn; [congruence|]. rewrite Bool.andb_true_r. reflexivity.
+  Qed.
+
+  Theorem C09_no_certificate_refused : forall cn cfg app,
+    admitted {| ss_config := cfg; ss_auths := [ACert cn]; ss_app := app |} (Some []) = false.
+  Proof. intros. reflexivity. Qed.
+End C09.
+
+(* (2) containment: a failed, stalled-then-dropped or rejected handshake ends that one connection — socket closed, never
+   registered — and changes nothing else: both listeners, both accept loops, the registry and every other connection are
+   as before; by C15 (1) both ports keep accepting *)
+Theorem C09_failed_handshake_contained : forall s s' id, lstep s (LHandshakeFail id) = Some s' \/ lstep s (LReject id) = Some s' ->
+  open_lis s' = open_lis s /\ fld_plain s' = fld_plain s /\ fld_tls s' = fld_tls s /\ loops s' = loops s /\ registry s' = registry s /\
+  accept_wg s' = accept_wg s /\ pc s' = pc s /\
+  (forall c, In c (conns s) -> ct_id c <> id -> In c (conns s')) /\
+  (forall c, In c (conns s') -> ct_id c = id -> ct_st c = CDone /\ ct_open c = false).
+Proof. exact handshake_failure_contained. Qed.
+
+Print Assumptions C09_rejected_runs_nothing.
+Print Assumptions C09_leaf_only.
+Print Assumptions C09_no_certificate_refused.
+Print Assumptions C09_failed_handshake_contained.
+
+Example C09_ex :
+  let ss := {| ss_config := []; ss_auths := [ACert (B"trusted-client")]; ss_app := [] |} in
+  admitted ss (Some [B"mallory-sub"; B"trusted-client"; B"verif-ca"]) = false /\      (* the name only on an intermediate *)
+  admitted ss (Some [B"trusted-client"; B"neutral-intermediate"]) = true /\
+  admitted ss None = true.                                                            (* the plain port has no certificate gate *)
+Proof. vm_compute. auto. Qed.
